@@ -17,6 +17,8 @@ case "$FAKE_MODE" in
   theorem) answer Theorem ;;
   none) echo "% no status today" ;;
   crash) echo "Segmentation fault" >&2; exit 139 ;;
+  garbage) printf '\377\376\375 not utf-8\n' ;;
+  garbageunless:*) if grep -q "${FAKE_MODE#garbageunless:}" "$f"; then answer Theorem; else printf '\377\376 not utf-8\n'; fi ;;
   status:*) answer "${FAKE_MODE#status:}" ;;
   unless:*) w="${FAKE_MODE#unless:}"; pat="${w%%=*}"; st="${w#*=}"; if grep -q "$pat" "$f"; then answer "$st"; else answer Theorem; fi ;;
   slowfirst) if grep -q "conjecture" "$f" && [ "$(ls "$FAKE_LOG" | wc -l)" -le 1 ]; then sleep 0.3; fi; answer Theorem ;;
@@ -61,7 +63,7 @@ pub fn check(deep: bool, st: &mut PStats, fails: &mut Vec<Failure>) {
     ];
     // (mode, every answer is Theorem)
     let mut modes: Vec<(String, bool)> = vec![
-        ("theorem".into(), true), ("none".into(), false), ("crash".into(), false), ("slowfirst".into(), true),
+        ("theorem".into(), true), ("none".into(), false), ("crash".into(), false), ("slowfirst".into(), true), ("garbage".into(), false), ("garbageunless:, conjecture, ~".into(), false), ("garbageunless:_0_".into(), false),
         ("unless:conjecture=CounterSatisfiable".into(), false), ("unless:nothing_matches_this=Timeout".into(), true),
     ];
     for s in ["CounterSatisfiable", "ContradictoryAxioms", "Satisfiable", "Timeout", "MemoryOut", "GaveUp", "Unknown", "Error", "EquivalentTheorem", "WeakerTheorem", "NoTheorem", "Theorem_", "theorem", "Unsatisfiable", "CounterTheorem", "User", "ResourceOut", "Inappropriate", "TheoremX"] {
@@ -72,7 +74,7 @@ pub fn check(deep: bool, st: &mut PStats, fails: &mut Vec<Failure>) {
     for (ti, (flags, files)) in tasks.iter().enumerate() {
         if !deep && ti % 2 == 1 && false { continue; }
         for (mi, (mode, all_theorem)) in modes.iter().enumerate() {
-            if !deep && mi >= 6 && (mi + ti) % 4 != 0 { continue; }
+            if !deep && mi >= 8 && (mi + ti) % 4 != 0 { continue; }
             for n in if deep { vec!["1", "3", "8"] } else { vec![["1", "3"][(mi + ti) % 2]] } {
                 st.runs += 1;
                 let what = format!("anthem verify {} -n {n} with a prover that answers `{mode}`: {}", flags.join(" "), files.iter().map(|(f, t)| format!("{f}=`{t}`")).collect::<Vec<_>>().join(" "));
@@ -80,7 +82,9 @@ pub fn check(deep: bool, st: &mut PStats, fails: &mut Vec<Failure>) {
                 st.problems += saved.len();
                 if saved.is_empty() { fails.push(Failure { property: "harness", input: what.clone(), detail: format!("no problems saved (exit {rc})") }); continue; }
                 // `unless:_1,=` depends on the formula names; whether it hit is read off the saved problems
-                let expect_success = if mode.starts_with("unless:") { let pat = mode["unless:".len()..].split('=').next().unwrap(); !saved.values().any(|t| t.contains(pat)) } else { *all_theorem };
+                let expect_success = if mode.starts_with("unless:") { let pat = mode["unless:".len()..].split('=').next().unwrap(); !saved.values().any(|t| t.contains(pat)) }
+                    else if mode.starts_with("garbageunless:") { let pat = &mode["garbageunless:".len()..]; saved.values().all(|t| t.contains(pat)) }
+                    else { *all_theorem };
                 let mut want: Vec<String> = saved.values().cloned().collect();
                 want.sort(); received.sort();
                 if want != received {
